@@ -105,6 +105,7 @@ REQUIRED_THEOREMS = ["Clikit.Props.C06.step_atomic_inv", "Clikit.Props.C06.reach
                      "Clikit.Props.C06.built_no_foreign_exception",
                      "Clikit.Props.C06.dispatch_none_iff", "Clikit.Props.C06.dispatch_mem",
                      "Clikit.Props.C06.dispatch_first", "Clikit.Props.C06.dispatch_subclass",
+                     "Clikit.Props.C06.only_decides", "Clikit.Props.C06.ctor_objects_same_rules_decided",
                      "Clikit.Props.C06.ctor_objects_same_rules"]
 RULE = ("cases = (0-2 base levels built with ArgsFormat(elements, base)) x (sequence of builder calls); quick: every "
         "sequence of length <= 3 over a reduced pool of 14 calls on 4 base configurations, then random sequences of "
@@ -826,11 +827,14 @@ def model_requests(case):
         levels = [{"name": lv["name"], "anonymous": lv["anonymous"], "adds": [_strip(e) for e in lv["adds"]]}
                   for lv in case["levels"]]
         return [dict(common, m="c06.config", levels=levels), wf,
-                {"m": "c06.flatten", "kind": "config", "levels": levels}, {"m": "c06.dispatch", "mros": []}]
+                {"m": "c06.flatten", "kind": "config", "levels": levels}, {"m": "c06.dispatch", "mros": [], "kinds": []}]
     bases = [[_strip(e) for e in lvl] for lvl in case["bases"]]
     # as which public class the model's `dispatch` (the isinstance chain of the element-list constructor) adds each
     # element object of the case, from the public classes among the bases of the REAL object's class
-    disp = {"m": "c06.dispatch", "mros": [_mro_names(objs.get(e)) for e in _case_objects(case)]}
+    # `kinds`: the public class the case means each object to be; the model then also DECIDES, on the bases of the real
+    # class, the hypothesis of ctor_objects_same_rules(_decided): the class derives from that public class only (onlyB)
+    disp = {"m": "c06.dispatch", "mros": [_mro_names(objs.get(e)) for e in _case_objects(case)],
+            "kinds": [e["k"] for e in _case_objects(case)]}
     if case["kind"] == "run":
         ops = [_strip_op(o) for o in case["ops"]]
         return [dict(common, m="c06.run", bases=bases, ops=ops, snap_all=bool(case["snap_all"])), wf,
@@ -841,12 +845,17 @@ def model_requests(case):
 
 
 def model_obs(case, answers):
-    return dict(answers[0], wf=answers[1]["wf"], flat=answers[2], dispatch=answers[3])
+    return dict(answers[0], wf=answers[1]["wf"], flat=answers[2], dispatch=answers[3]["dispatch"],
+                only=answers[3]["only"])
 
 
 def impl_view(case, obs):
     # every element the constructors accept is well formed (C07): the model's decision must be `true`
-    return dict(_impl_view(case, obs), wf=True, flat=obs.get("flat"), dispatch=obs.get("dispatch", []))
+    # `only`: the claim that every element object the harness makes (the public classes and the user subclasses of
+    # `_user_classes`: trivial, two levels deep, behind a mixin) derives from exactly the one public class the case means
+    # it to be - the hypothesis of ctor_objects_same_rules; a foreign object derives from none
+    only = [] if case["kind"] == "config" else [e["k"] != "foreign" for e in _case_objects(case)]
+    return dict(_impl_view(case, obs), wf=True, flat=obs.get("flat"), dispatch=obs.get("dispatch", []), only=only)
 
 
 def _impl_view(case, obs):
